@@ -21,9 +21,16 @@ pub uninterp spec fn pad_gain_table(run: u32, p: TpcPadPosition) -> Result<f64, 
 pub open spec fn pad_delay_spec(run: u32) -> Result<usize, MapPadDelayError> {
     if run == 0xFFFF_FFFF { Ok(100usize) } else if run >= 7000 { Ok(115usize) } else { Err(MapPadDelayError::MissingMap { run_number: run }) }
 }
-// waveform.iter().skip(delay).map(|&v| f64::from(i32::from(v) - i32::from(baseline)) * gain).collect(): float arithmetic, opaque;
-// its integer part is proved exact by the Kani harness cal_pad_complete
-pub uninterp spec fn calibrated(w: Seq<i16>, delay: usize, baseline: i16, gain: f64) -> Seq<f64>;
+// waveform.iter().skip(delay).map(|&v| f64::from(i32::from(v) - i32::from(baseline)) * gain).collect(): the chain is verified as the
+// index loop that defines it (rule R30); the difference is exact integer arithmetic verified in the body (no overflow: also the Kani
+// harness cal_pad_complete); the conversion to f64 and the product are floating point and stay opaque
+pub uninterp spec fn scale(d: i32, gain: f64) -> f64;
+#[verifier::external_body]
+pub fn lift_scale(d: i32, gain: f64) -> (r: f64) ensures r == scale(d, gain) { unimplemented!() }
+// the calibrated waveform: the first `delay` samples removed, every remaining sample, in order, as scale(raw - baseline, gain)
+pub open spec fn calibrated(w: Seq<i16>, delay: usize, baseline: i16, gain: f64) -> Seq<f64> {
+    Seq::new((if delay <= w.len() { w.len() - delay } else { 0 }) as nat, |i: int| scale((w[delay + i] as i32 - baseline as i32) as i32, gain))
+}
 
 pub open spec fn v2(p: PwbPacket) -> PwbV2Packet { match p { PwbPacket::V2(q) => q } }
 // the samples of a sent channel c in packet p (its block of the data, without the two header words); channels are distinct (wf_pwb)
